@@ -127,16 +127,25 @@ def run_tlc(work, module, cfg, out, workers=16, timeout=1500, extra=()):
 
 
 def build(work, pkg):
-    """go test -c of one harness package against /repo's current working tree."""
-    shutil.copy("/repo/go.sum", os.path.join(HARNESS, "go.sum"))
+    """go test -c of one harness package against the repository's current working tree
+    (/repo, or $VERIF_REPO for scratch worktrees).  The harness sources are copied into the work
+    directory first so that concurrent checks never share go.mod/go.sum."""
+    repo = os.environ.get("VERIF_REPO", "/repo")
+    hdir = work.path("harness")
+    if not os.path.exists(hdir):
+        shutil.copytree(HARNESS, hdir, ignore=shutil.ignore_patterns("go.sum"))
+        shutil.copy(os.path.join(repo, "go.sum"), os.path.join(hdir, "go.sum"))
+        gm = open(os.path.join(hdir, "go.mod")).read()
+        gm = gm.replace("github.com/functionx/fx-core/v8 => /repo", "github.com/functionx/fx-core/v8 => " + repo)
+        open(os.path.join(hdir, "go.mod"), "w").write(gm)
     out = work.path(pkg + ".test")
     env = dict(os.environ, **GOENV)
     t0 = time.time()
-    p = subprocess.run(["go", "test", "-c", "-tags", "verif", "-o", out, "./" + pkg], cwd=HARNESS, env=env,
+    p = subprocess.run(["go", "test", "-c", "-tags", "verif", "-o", out, "./" + pkg], cwd=hdir, env=env,
                        stdout=subprocess.PIPE, stderr=subprocess.STDOUT, text=True)
     if p.returncode != 0:
         raise Infra("harness build failed:\n" + p.stdout[-4000:])
-    log("built %s in %.0fs" % (pkg, time.time() - t0))
+    log("built %s against %s in %.0fs" % (pkg, repo, time.time() - t0))
     return out
 
 
